@@ -146,6 +146,12 @@ where
     pub fn build<P: Into<PathBuf>>(&mut self, file: P) -> BuildResult {
         let file = file.into();
         self.working_dir = file.parent().unwrap().to_path_buf();
+        // The one-output-per-file lock guards a single evaluation of this file.
+        // It must not survive from an earlier build or import of the same file
+        // in this invocation.
+        self.environment
+            .borrow_mut()
+            .reset_out_lock_for_path(&file);
         let ptr = self.environment.borrow_mut().get_ops_for_path(&file)?;
         let eval_result = self.eval_ops(ptr, Some(file.clone()));
         match eval_result {
